@@ -45,6 +45,16 @@ type Frame struct {
 	Ops        []Op
 	End        string // render | refresh | resize
 	Cols, Rows int    `json:",omitempty"` // for resize
+	// Foreign: what something else left of the terminal's cursor before a Refresh or a size change
+	// ("whatever the terminal displayed before" includes the cursor); nil = the cursor was left alone
+	Foreign *ForeignD `json:",omitempty"`
+}
+
+// ForeignD is a cursor state of the terminal: visibility, DECSCUSR shape, 0-based position.
+type ForeignD struct {
+	Vis   bool
+	Shape int
+	R, C  int
 }
 
 type Scn struct {
@@ -116,6 +126,148 @@ type curReq struct {
 	row, col, shape int
 }
 
+// ---- the application's record -------------------------------------------
+
+// RecCell is what the application knows about one column: the cell of the write that last covered the
+// column, the column where that write started (Hd) and the number of the write (St, growing; 0 = never
+// written). The record is a log, not a verdict: which glyphs are still whole and what each column has
+// to show is decided by RefTerm!Intended from these facts.
+type RecCell struct {
+	Cell   CellD
+	Hd, St int
+}
+
+// Rec is the application's own record of the screen it asked for.
+type Rec struct {
+	Cols, Rows int
+	Cells      [][]RecCell
+	stamp      int
+	w          widther
+}
+
+type widther interface{ AppWidth(string) int }
+
+func NewRec(cols, rows int, w widther) *Rec {
+	m := &Rec{Cols: cols, Rows: rows, w: w, Cells: make([][]RecCell, rows)}
+	for r := range m.Cells {
+		m.Cells[r] = make([]RecCell, cols)
+		for c := range m.Cells[r] {
+			m.Cells[r][c].Hd = c
+		}
+	}
+	return m
+}
+
+// Width is the number of columns a cell covers on this terminal: the explicit width, else the
+// terminal's own width of the grapheme; an empty or zero-width cell still covers its column.
+func (m *Rec) Width(c CellD) int {
+	w := c.W
+	if w == 0 {
+		w = m.w.AppWidth(c.G)
+	}
+	if w < 1 {
+		w = 1
+	}
+	return w
+}
+
+func (m *Rec) in(c, r int) bool { return c >= 0 && c < m.Cols && r >= 0 && r < m.Rows }
+
+// Set records SetCell(c, r, cell): the write covers the columns c .. c+width-1 (to the edge of the
+// screen at most; a glyph reaching past the edge is outside C01's domain, see Fits).
+func (m *Rec) Set(c, r int, cell CellD) {
+	if !m.in(c, r) {
+		return
+	}
+	m.stamp++
+	for i := 0; i < m.Width(cell) && c+i < m.Cols; i++ {
+		m.Cells[r][c+i] = RecCell{Cell: cell, Hd: c, St: m.stamp}
+	}
+}
+
+// Fits tells whether a cell set at column c lies on the screen with all of its columns.
+func (m *Rec) Fits(c int, cell CellD) bool { return c >= 0 && c+m.Width(cell) <= m.Cols }
+
+// SetStyle records Window.SetStyle: the style of the cell that starts at this column changes, no
+// column changes hands.
+func (m *Rec) SetStyle(c, r int, st StyleD) {
+	if m.in(c, r) {
+		m.Cells[r][c].Cell.S = st
+	}
+}
+
+// Fill records Window.Fill: the window is filled with the cell, one beside the other; columns at the
+// right edge too few for one more are not touched.
+func (m *Rec) Fill(cell CellD) {
+	w := m.Width(cell)
+	for r := 0; r < m.Rows; r++ {
+		for c := 0; c+w <= m.Cols; c += w {
+			m.Set(c, r, cell)
+		}
+	}
+}
+
+func (m *Rec) Clear() { m.Fill(CellD{G: " ", W: 1}) }
+
+// Print records Window.Print of narrow ASCII text: left to right from the origin, wrapping at the
+// right edge (the documented behaviour).
+func (m *Rec) Print(text string, st StyleD) {
+	c, r := 0, 0
+	for _, ch := range text {
+		if r >= m.Rows {
+			break
+		}
+		m.Set(c, r, CellD{G: string(ch), W: 1, S: st})
+		c++
+		if c >= m.Cols {
+			c, r = 0, r+1
+		}
+	}
+}
+
+// Whole tells whether the write that started at (c, r) still has all of its columns.
+func (m *Rec) Whole(c, r int) bool {
+	h := m.Cells[r][c]
+	if h.Hd != c {
+		return false
+	}
+	for i := 0; i < m.Width(h.Cell) && c+i < m.Cols; i++ {
+		if x := m.Cells[r][c+i]; x.Hd != c || x.St != h.St {
+			return false
+		}
+	}
+	return true
+}
+
+// Apply records one cell operation (cursor operations are not cell operations).
+func (m *Rec) Apply(op Op) {
+	switch op.K {
+	case "set":
+		m.Set(op.C, op.R, *op.Cell)
+	case "style":
+		m.SetStyle(op.C, op.R, *op.Style)
+	case "fill":
+		m.Fill(*op.Cell)
+	case "clear":
+		m.Clear()
+	case "print":
+		m.Print(op.Text, *op.Style)
+	}
+}
+
+// App renders the record as the grid of tuples RefTerm!Intended expects:
+// <<g, w, fg, bg, ul, us, at, ln, tw, hd, st>> (hd 1-based).
+func (m *Rec) App(cv *termcmd.Conv, l *trace.Interner) [][][]int {
+	app := make([][][]int, m.Rows)
+	for r := range m.Cells {
+		app[r] = make([][]int, m.Cols)
+		for c, x := range m.Cells[r] {
+			app[r][c] = append(appCell(cv, l, x.Cell), x.Hd+1, x.St)
+		}
+	}
+	return app
+}
+
 // appCell renders one application cell as the tuple RefTerm.Intended expects.
 func appCell(cv *termcmd.Conv, l *trace.Interner, c CellD) []int {
 	ln := 0
@@ -125,6 +277,10 @@ func appCell(cv *termcmd.Conv, l *trace.Interner, c CellD) []int {
 	v := c.S.V()
 	return []int{cv.G.ID(c.G), c.W, ColInt(v.Foreground), ColInt(v.Background), ColInt(v.UnderlineColor),
 		int(c.S.Us), AttrInt(v.Attribute), ln, cv.AppWidth(c.G)}
+}
+
+func foreignEv(f *ForeignD) trace.Ev {
+	return trace.Ev{"ev": "foreign", "vis": f.Vis, "shape": f.Shape, "r": f.R + 1, "c": f.C + 1}
 }
 
 // Run executes a scenario against the real library and returns its events.
@@ -162,7 +318,7 @@ func Run(ctx *Ctx, sc *Scn) (evs []trace.Ev, note string) {
 		"appid": vx.CanSetAppID(), "unicodeCore": vx.CanUnicodeCore(), "explicitWidth": vx.CanExplicitWidth()}})
 	ctx.dump("startup caps=%+v out=%q\n", caps, stripNUL(s.Startup))
 	cols, rows := sc.Cols, sc.Rows
-	want := newWant(cols, rows)
+	want := NewRec(cols, rows, cv)
 	cur := curReq{}
 	for _, f := range sc.Frames {
 		if f.End == "resize" && (f.Cols != cols || f.Rows != rows) {
@@ -175,50 +331,25 @@ func Run(ctx *Ctx, sc *Scn) (evs []trace.Ev, note string) {
 			ctx.dump("resize -> %dx%d out=%q\n", cols, rows, stripNUL(o))
 			evs = append(evs, cv.Feed(o)...)
 			evs = append(evs, trace.Ev{"ev": "resize", "rows": rows, "cols": cols})
-			want = newWant(cols, rows)
+			if f.Foreign != nil {
+				evs = append(evs, foreignEv(f.Foreign))
+			}
+			want = NewRec(cols, rows, cv)
 		}
 		win := vx.Window()
 		for _, op := range f.Ops {
 			switch op.K {
 			case "set":
 				win.SetCell(op.C, op.R, op.Cell.V())
-				if op.C >= 0 && op.C < cols && op.R >= 0 && op.R < rows {
-					want[op.R][op.C] = *op.Cell
-				}
 			case "style":
 				win.SetStyle(op.C, op.R, op.Style.V())
-				if op.C >= 0 && op.C < cols && op.R >= 0 && op.R < rows {
-					want[op.R][op.C].S = *op.Style
-				}
 			case "fill":
 				win.Fill(op.Cell.V())
-				for r := range want {
-					for c := range want[r] {
-						want[r][c] = *op.Cell
-					}
-				}
 			case "clear":
 				win.Clear()
-				for r := range want {
-					for c := range want[r] {
-						want[r][c] = CellD{G: " ", W: 1}
-					}
-				}
 			case "print":
-				// narrow ASCII text only; documented behaviour: left to
-				// right from the origin, wrapping at the right edge.
+				// narrow ASCII text only
 				win.Print(vaxis.Segment{Text: op.Text, Style: op.Style.V()})
-				c, r := 0, 0
-				for _, ch := range op.Text {
-					if r >= rows {
-						break
-					}
-					want[r][c] = CellD{G: string(ch), W: 1, S: *op.Style}
-					c++
-					if c >= cols {
-						c, r = 0, r+1
-					}
-				}
 			case "show":
 				vx.ShowCursor(op.C, op.R, vaxis.CursorStyle(op.Shape))
 				cur = curReq{true, op.R, op.C, op.Shape}
@@ -226,10 +357,15 @@ func Run(ctx *Ctx, sc *Scn) (evs []trace.Ev, note string) {
 				vx.HideCursor()
 				cur.vis = false
 			}
+			want.Apply(op)
 		}
 		switch f.End {
 		case "refresh":
-			evs = append(evs, trace.Ev{"ev": "scramble"})
+			if f.Foreign != nil {
+				evs = append(evs, foreignEv(f.Foreign))
+			} else {
+				evs = append(evs, trace.Ev{"ev": "scramble"})
+			}
 			vx.Refresh()
 		default:
 			vx.Render()
@@ -237,30 +373,15 @@ func Run(ctx *Ctx, sc *Scn) (evs []trace.Ev, note string) {
 		o := s.Con.Take()
 		ctx.dump("frame %s out=%q\n", f.End, stripNUL(o))
 		evs = append(evs, cv.Feed(o)...)
-		app := make([][][]int, rows)
-		for r := range want {
-			app[r] = make([][]int, cols)
-			for c := range want[r] {
-				app[r][c] = appCell(cv, ctx.L, want[r][c])
-			}
-		}
 		cr := []int{0, 0, 0, 0}
 		if cur.vis {
 			cr = []int{1, cur.row + 1, cur.col + 1, cur.shape}
 		}
-		evs = append(evs, trace.Ev{"ev": "frame", "app": app, "cur": cr, "rgb": rgbcap, "su": sucap})
+		evs = append(evs, trace.Ev{"ev": "frame", "app": want.App(cv, ctx.L), "cur": cr, "rgb": rgbcap, "su": sucap})
 	}
 	vx.Close()
 	evs = append(evs, cv.Feed(s.Con.Take())...)
 	return evs, ""
-}
-
-func newWant(cols, rows int) [][]CellD {
-	w := make([][]CellD, rows)
-	for r := range w {
-		w[r] = make([]CellD, cols)
-	}
-	return w
 }
 
 // ---- generators --------------------------------------------------------
@@ -333,81 +454,65 @@ func randCell(rng *rand.Rand, cv widther, maxw int) CellD {
 	return c
 }
 
-type widther interface{ AppWidth(string) int }
-
 // fixDomain appends ops so that no glyph extends past the right edge (such a
 // cell has no correct rendering and is outside C01's domain).
-func fixDomain(want [][]CellD, cv widther, ops []Op) []Op {
-	for r := range want {
-		n := len(want[r])
-		for c := 0; c < n; {
-			w := want[r][c].W
-			if w == 0 {
-				w = cv.AppWidth(want[r][c].G)
+func fixDomain(m *Rec, ops []Op) []Op {
+	for r := range m.Cells {
+		for c := range m.Cells[r] {
+			if x := m.Cells[r][c]; x.Hd == c && !m.Fits(c, x.Cell) {
+				cell := CellD{G: "#", W: 1, S: x.Cell.S}
+				op := Op{K: "set", C: c, R: r, Cell: &cell}
+				m.Apply(op)
+				ops = append(ops, op)
 			}
-			if w < 1 {
-				w = 1
-			}
-			if c+w > n {
-				cell := CellD{G: "#", W: 1, S: want[r][c].S}
-				want[r][c] = cell
-				ops = append(ops, Op{K: "set", C: c, R: r, Cell: &cell})
-				w = 1
-			}
-			c += w
 		}
 	}
 	return ops
 }
 
-// simWant mirrors Run's bookkeeping so generators can keep scenarios in domain.
+// sim mirrors Run's bookkeeping so generators can keep scenarios in domain.
 type sim struct {
-	want       [][]CellD
-	cols, rows int
-	vis        bool
-	cr, cc     int
+	*Rec
+	vis    bool
+	cr, cc int
 }
 
+func newSim(cols, rows int, w widther) *sim { return &sim{Rec: NewRec(cols, rows, w)} }
+
 func (m *sim) apply(op Op) {
-	in := op.C >= 0 && op.C < m.cols && op.R >= 0 && op.R < m.rows
 	switch op.K {
-	case "set":
-		if in {
-			m.want[op.R][op.C] = *op.Cell
-		}
-	case "style":
-		if in {
-			m.want[op.R][op.C].S = *op.Style
-		}
-	case "fill":
-		for r := range m.want {
-			for c := range m.want[r] {
-				m.want[r][c] = *op.Cell
-			}
-		}
-	case "clear":
-		for r := range m.want {
-			for c := range m.want[r] {
-				m.want[r][c] = CellD{G: " ", W: 1}
-			}
-		}
-	case "print":
-		c, r := 0, 0
-		for _, ch := range op.Text {
-			if r >= m.rows {
-				break
-			}
-			m.want[r][c] = CellD{G: string(ch), W: 1, S: *op.Style}
-			c++
-			if c >= m.cols {
-				c, r = 0, r+1
-			}
-		}
 	case "show":
 		m.vis, m.cr, m.cc = true, op.R, op.C
 	case "hide":
 		m.vis = false
+	default:
+		m.Rec.Apply(op)
 	}
+}
+
+// inDomain rewrites a cell operation so that no glyph is set where it does not fit: a set of a glyph
+// that would reach past the right edge sets '#' there instead; a fill with a wide cell is followed by
+// '#' in the columns at the right edge that are too few for one more (what Fill leaves there is not
+// stated anywhere).
+func (m *sim) inDomain(op Op) []Op {
+	switch op.K {
+	case "set":
+		if m.in(op.C, op.R) && !m.Fits(op.C, *op.Cell) {
+			cell := CellD{G: "#", W: 1, S: op.Cell.S}
+			op.Cell = &cell
+		}
+	case "fill":
+		w := m.Width(*op.Cell)
+		ops := []Op{op}
+		for r := 0; r < m.Rows; r++ {
+			for c := m.Cols - m.Cols%w; c < m.Cols; c++ {
+				cell := CellD{G: "#", W: 1, S: op.Cell.S}
+				ops = append(ops, Op{K: "set", C: c, R: r, Cell: &cell})
+			}
+		}
+		return ops
+	}
+	return []Op{op}
 }
 
 // capsConv returns a width oracle matching what the terminal will do once
@@ -442,7 +547,7 @@ func GenRandom(rng *rand.Rand, nframes int) *Scn {
 func GenRandomFor(rng *rand.Rand, nframes int, mask int, alt bool) *Scn {
 	sc := &Scn{Kind: "random", Mask: mask, Alt: alt, Cols: 1 + rng.Intn(8), Rows: 1 + rng.Intn(4)}
 	cv := capsConv(sc.Mask, sc.Alt)
-	m := &sim{want: newWant(sc.Cols, sc.Rows), cols: sc.Cols, rows: sc.Rows}
+	m := newSim(sc.Cols, sc.Rows, cv)
 	for i := 0; i < nframes; i++ {
 		f := Frame{End: "render"}
 		switch x := rng.Intn(20); {
@@ -451,12 +556,13 @@ func GenRandomFor(rng *rand.Rand, nframes int, mask int, alt bool) *Scn {
 		case x < 5 && i > 0:
 			f.End = "resize"
 			f.Cols, f.Rows = 1+rng.Intn(8), 1+rng.Intn(4)
-			if f.Cols == m.cols && f.Rows == m.rows {
+			if f.Cols == m.Cols && f.Rows == m.Rows {
 				f.Cols++
 			}
 			vis, cr, cc := m.vis, m.cr, m.cc
-			m = &sim{want: newWant(f.Cols, f.Rows), cols: f.Cols, rows: f.Rows, vis: vis, cr: cr, cc: cc}
-			if m.vis && (m.cr >= m.rows || m.cc >= m.cols) {
+			m = newSim(f.Cols, f.Rows, cv)
+			m.vis, m.cr, m.cc = vis, cr, cc
+			if m.vis && (m.cr >= m.Rows || m.cc >= m.Cols) {
 				// a cursor request outside the new screen has no meaning
 				op := Op{K: "hide"}
 				m.apply(op)
@@ -468,21 +574,21 @@ func GenRandomFor(rng *rand.Rand, nframes int, mask int, alt bool) *Scn {
 			var op Op
 			switch x := rng.Intn(20); {
 			case x < 10:
-				c := randCell(rng, cv, m.cols)
+				c := randCell(rng, cv, m.Cols)
 				if mask&(1<<14) != 0 && rng.Intn(4) == 0 && len([]rune(c.G)) == 1 && cv.AppWidth(c.G) == 1 {
 					// a terminal with explicit width displays a glyph in as many cells as the
 					// application says: a narrow character laid out two cells wide
 					c.W = 2
 				}
-				op = Op{K: "set", C: rng.Intn(m.cols+1) - 0, R: rng.Intn(m.rows), Cell: &c}
+				op = Op{K: "set", C: rng.Intn(m.Cols+1) - 0, R: rng.Intn(m.Rows), Cell: &c}
 				if rng.Intn(10) == 0 {
 					op.C = -1
 				}
 			case x < 12:
 				st := RandStyle(rng)
-				op = Op{K: "style", C: rng.Intn(m.cols), R: rng.Intn(m.rows), Style: &st}
+				op = Op{K: "style", C: rng.Intn(m.Cols), R: rng.Intn(m.Rows), Style: &st}
 			case x < 13:
-				c := randCell(rng, cv, m.cols)
+				c := randCell(rng, cv, m.Cols)
 				op = Op{K: "fill", Cell: &c}
 			case x < 15:
 				op = Op{K: "clear"}
@@ -490,17 +596,96 @@ func GenRandomFor(rng *rand.Rand, nframes int, mask int, alt bool) *Scn {
 				st := RandStyle(rng)
 				op = Op{K: "print", Text: strings.Repeat("hi", 1+rng.Intn(3)), Style: &st}
 			case x < 19:
-				op = Op{K: "show", C: rng.Intn(m.cols), R: rng.Intn(m.rows), Shape: rng.Intn(7)}
+				op = Op{K: "show", C: rng.Intn(m.Cols), R: rng.Intn(m.Rows), Shape: rng.Intn(7)}
 			default:
 				op = Op{K: "hide"}
 			}
-			m.apply(op)
-			f.Ops = append(f.Ops, op)
+			for _, op := range m.inDomain(op) {
+				m.apply(op)
+				f.Ops = append(f.Ops, op)
+			}
 		}
-		f.Ops = fixDomain(m.want, cv, f.Ops)
+		f.Ops = fixDomain(m.Rec, f.Ops)
 		sc.Frames = append(sc.Frames, f)
 	}
 	return sc
+}
+
+// WithForeignCursor gives every Refresh and every size change of the scenario a cursor that something
+// else left behind on the terminal (visibility, shape, position): "whatever the terminal displayed
+// before" includes the cursor.
+func WithForeignCursor(rng *rand.Rand, sc *Scn) *Scn {
+	cols, rows := sc.Cols, sc.Rows
+	for i := range sc.Frames {
+		f := &sc.Frames[i]
+		if f.End == "resize" {
+			cols, rows = f.Cols, f.Rows
+		}
+		if f.End == "refresh" || f.End == "resize" {
+			f.Foreign = &ForeignD{Vis: rng.Intn(3) != 0, Shape: rng.Intn(7), R: rng.Intn(rows), C: rng.Intn(cols)}
+		}
+	}
+	return sc
+}
+
+// GenOverlap: two cells A and B of every pair of kinds (narrow, wide, empty, styled empty, zero-width)
+// set so that one lies on a column of the other - B on the second column of A, or B one column to the
+// left of A and reaching it when B is wide - in both orders, within one frame and in two, the last frame
+// rendered or refreshed, then one more frame that replaces the left cell by a narrow one. pick selects
+// every n-th case (1 = all).
+func GenOverlap(rng *rand.Rand, pick int) []*Scn {
+	red := StyleD{Bg: uint32(vaxis.IndexColor(1))}
+	kinds := []CellD{{G: "a", W: 1}, {G: "世"}, {G: "😀", W: 2, S: StyleD{Fg: uint32(vaxis.IndexColor(2))}}, {}, {S: red}, {G: " ", W: 1, S: red}, {G: "́"}}
+	var out []*Scn
+	k := 0
+	for _, a := range kinds {
+		for _, b := range kinds {
+			for v := 0; v < 16; v++ {
+				k++
+				if k%pick != 0 {
+					continue
+				}
+				a, b := a, b
+				ca, cb := 1, 2 // B on the column after A's first
+				if v&1 != 0 {
+					ca, cb = 2, 1 // B before A
+				}
+				opA, opB := Op{K: "set", C: ca, R: 0, Cell: &a}, Op{K: "set", C: cb, R: 0, Cell: &b}
+				if v&2 != 0 { // the other order: B first, then A over it
+					opA, opB = opB, opA
+				}
+				end := "render"
+				if v&8 != 0 {
+					end = "refresh"
+				}
+				x := CellD{G: "x", W: 1}
+				sc := &Scn{Kind: "overlap", Mask: []int{0, 1 << 1, 1 << 14, 1<<0 | 1<<8}[rng.Intn(4)], Cols: 5, Rows: 1}
+				base := Op{K: "print", Text: "hello", Style: &StyleD{}}
+				if v&4 != 0 {
+					sc.Frames = []Frame{{End: "render", Ops: []Op{base, opA}}, {End: end, Ops: []Op{opB}}}
+				} else {
+					sc.Frames = []Frame{{End: "render", Ops: []Op{base}}, {End: end, Ops: []Op{opA, opB}}}
+				}
+				sc.Frames = append(sc.Frames, Frame{End: "render", Ops: []Op{{K: "set", C: 1, R: 0, Cell: &x}}},
+					Frame{End: "refresh"})
+				out = append(out, sc)
+			}
+		}
+	}
+	// the as-reported shape: text with wide characters, then a child window (its cells) from the second
+	// column of a wide character on
+	for _, fill := range []CellD{{G: "#", W: 1}, {S: red}, {}} {
+		fill := fill
+		for _, end := range []string{"render", "refresh"} {
+			w1, w2 := CellD{G: "世"}, CellD{G: "界"}
+			out = append(out, &Scn{Kind: "overlap-popup", Cols: 6, Rows: 1, Frames: []Frame{
+				{End: "render", Ops: []Op{{K: "set", C: 0, R: 0, Cell: &w1}, {K: "set", C: 2, R: 0, Cell: &w2}}},
+				{End: end, Ops: []Op{{K: "set", C: 1, R: 0, Cell: &fill}, {K: "set", C: 2, R: 0, Cell: &fill}}},
+				{End: "refresh"},
+			}})
+		}
+	}
+	return out
 }
 
 // GenChain exercises pen transitions: rows of cells whose styles follow a
